@@ -11,7 +11,9 @@ macro_rules! props {
     ($($id:literal => $m:ident),* $(,)?) => {
         $(pub mod $m;)*
         pub const ALL: &[(&str, Entry)] = &[
-            $(($id, Entry { run: $m::run, replay: $m::replay })),*
+            $(($id, Entry { run: $m::run, replay: $m::replay })),*,
+            ("C27", Entry { run: c27::run_engine, replay: c27::replay }),
+            ("C10", Entry { run: c10::run_engine, replay: c10::replay }),
         ];
     };
 }
@@ -23,6 +25,8 @@ pub mod simcmp;
 pub mod simfam;
 pub mod osinfo;
 
+pub mod c27;
+pub mod c10;
 props! {
     "C01" => c01,
     "C02" => c02,
